@@ -392,9 +392,10 @@ class Result:
               'coverage': self.cov, 'assumptions': self.assumptions, 'wall_s': round(wall, 2),
               'violations': len(self.violations)}
         os.makedirs(EVID, exist_ok=True)
-        with open(os.path.join(EVID, self.pid + '.json.tmp'), 'w') as f:
+        evname = self.pid + ('.replay' if getattr(self, 'is_replay', False) else '') + '.json'
+        with open(os.path.join(EVID, evname + '.tmp'), 'w') as f:
             json.dump(ev, f, indent=1, default=str)
-        os.replace(os.path.join(EVID, self.pid + '.json.tmp'), os.path.join(EVID, self.pid + '.json'))
+        os.replace(os.path.join(EVID, evname + '.tmp'), os.path.join(EVID, evname))
         seen = set()
         for facts, path in self.violations:
             if path in seen:
